@@ -325,6 +325,9 @@ theorem paramNames_elem (n : Str) (a : List (Str × Str)) (cs : List XNode) : pa
   | cons c rest ih =>
     cases c <;> simp [List.filterMap_cons, nameOf, ih]
 
+theorem names_cons_of {x : XNode} {n : Str} (l : List XNode) (h : nameOf x = some n) : names (x :: l) = n :: names l := by
+  simp [names, List.filterMap_cons, h]
+
 theorem names_append (a b : List XNode) : names (a ++ b) = names a ++ names b := by
   simp [names, List.filterMap_append]
 
@@ -416,6 +419,36 @@ theorem configElPart_names (o : Option XNode) (l : List XNode) (h : configElPart
         rcases hr with hr | hr <;> subst hr <;> simp [names, nameOf]
     · cases h
 
+theorem nsOpt_names (name : String) (o : Option Str) (l : List XNode) (h : nsOpt name o = .ok l) :
+    (names l).Sublist [s "ns0:" ++ s name] := by
+  cases o with
+  | none => simp only [nsOpt, pure, Except.pure] at h; injection h with h; subst h; simp [names]
+  | some t =>
+    simp only [nsOpt] at h
+    obtain ⟨x, hx, h⟩ := bind_ok h
+    unfold nsLeaf at hx
+    split at hx
+    · injection hx with hx; subst hx
+      simp only [pure, Except.pure] at h; injection h with h; subst h
+      simp [names, nameOf]
+    · cases hx
+
+theorem pfxLeaf_name (pfx name : String) (t : Str) (x : XNode) (h : pfxLeaf pfx name t = .ok x) : nameOf x = some (s pfx ++ s name) := by
+  unfold pfxLeaf at h
+  split at h
+  · injection h with h; subst h; rfl
+  · cases h
+
+theorem optPfxLeaf_names (pfx name : String) (o : Option Str) (l : List XNode) (h : optPfxLeaf pfx name o = .ok l) :
+    (names l).Sublist [s pfx ++ s name] := by
+  cases o with
+  | none => simp only [optPfxLeaf, pure, Except.pure] at h; injection h with h; subst h; simp [names]
+  | some t =>
+    simp only [optPfxLeaf] at h
+    obtain ⟨x, hx, h⟩ := bind_ok h
+    injection h with h; subst h
+    simp [names, pfxLeaf_name _ _ _ _ hx]
+
 /-- The parameter elements RFC 6241 / 6243 / 5277 define for each retrieval call, in their order (both spellings of a
     caller-made `<filter>` / `<config>` root listed). -/
 def rfcOrder : Retrieve.Call → List Str
@@ -423,12 +456,17 @@ def rfcOrder : Retrieve.Call → List Str
   | .getConfig _ _ _ => [nc "source", nc "filter", s "filter", s "ns0:with-defaults"]
   | .dispatch _ _ _ => [nc "source", nc "filter", s "filter"]
   | .rpc _ _ _ _ _ => [nc "target", nc "source", nc "filter", s "filter", nc "config", s "config"]
-  | _ => []
+  | .subscribe _ _ _ _ => [nc "filter", s "filter", s "ns0:" ++ s "stream", s "ns0:" ++ s "startTime", s "ns0:" ++ s "stopTime"]
+  | .getSchema _ _ _ => [s "ncm:" ++ s "identifier", s "ncm:" ++ s "version", s "ncm:" ++ s "format"]
+  | .validateEl _ => [nc "source"]
+  | .copyEl _ _ => [nc "target", nc "source", s "source"]
+  | .poweroff => []
+  | .reboot => []
 
 /-- get / get-config / dispatch / rpc: whatever is built carries only parameter elements the protocol defines for that call,
     each at most once, in the protocol's order. -/
-theorem parameter_order (caps : Caps.Caps) (call : Retrieve.Call) (t : XNode) (h : Retrieve.build caps call = .ok t)
-    (hc : rfcOrder call ≠ []) : (paramNames t).Sublist (rfcOrder call) := by
+theorem parameter_order (caps : Caps.Caps) (call : Retrieve.Call) (t : XNode) (h : Retrieve.build caps call = .ok t) :
+    (paramNames t).Sublist (rfcOrder call) := by
   cases call with
   | get f w =>
     unfold Retrieve.build Retrieve.get at h
@@ -471,11 +509,64 @@ theorem parameter_order (caps : Caps.Caps) (call : Retrieve.Call) (t : XNode) (h
     have := List.Sublist.append (List.Sublist.append (List.Sublist.append (targetPart_names caps tg tl htl) (sourcePart_names caps src sl hsl))
       (filterPart_names f fl hfl)) (configElPart_names cfg cl hcl)
     simpa [List.append_assoc] using this
-  | getSchema _ _ _ => exact absurd rfl hc
-  | poweroff => exact absurd rfl hc
-  | reboot => exact absurd rfl hc
-  | validateEl _ => exact absurd rfl hc
-  | copyEl _ _ => exact absurd rfl hc
-  | subscribe _ _ _ _ => exact absurd rfl hc
+  | getSchema i v f =>
+    unfold Retrieve.build getSchema at h
+    obtain ⟨x, hx, h⟩ := bind_ok h
+    obtain ⟨vl, hvl, h⟩ := bind_ok h
+    obtain ⟨fl, hfl, h⟩ := bind_ok h
+    injection h with h; subst h
+    simp only [paramNames_elem, names_append, rfcOrder]
+    have hx' : names [x] = [s "ncm:" ++ s "identifier"] := by simp [names, pfxLeaf_name _ _ _ _ hx]
+    rw [hx']
+    exact List.Sublist.append (List.Sublist.append (List.Sublist.refl _) (optPfxLeaf_names _ _ v vl hvl)) (optPfxLeaf_names _ _ f fl hfl)
+  | poweroff =>
+    unfold Retrieve.build power at h
+    obtain ⟨_, _, h⟩ := bind_ok h
+    injection h with h; subst h
+    simp [paramNames_elem, names, rfcOrder]
+  | reboot =>
+    unfold Retrieve.build power at h
+    obtain ⟨_, _, h⟩ := bind_ok h
+    injection h with h; subst h
+    simp [paramNames_elem, names, rfcOrder]
+  | validateEl cfg =>
+    unfold Retrieve.build validateEl at h
+    obtain ⟨_, _, h⟩ := bind_ok h
+    split at h
+    · simp only [pure, Except.pure] at h; injection h with h; subst h
+      simp [el, paramNames_elem, names, nameOf, rfcOrder]
+    · cases h
+  | copyEl tg srcEl =>
+    unfold Retrieve.build copyConfigEl at h
+    obtain ⟨x, hx, h⟩ := bind_ok h
+    split at h
+    · rename_i hr
+      simp only [pure, Except.pure] at h; injection h with h; subst h
+      cases srcEl with
+      | text t => simp [rootIsSource] at hr
+      | elem n a cs =>
+        simp only [rootIsSource, Bool.or_eq_true, decide_eq_true_eq] at hr
+        have hx' : nameOf x = some (nc "target") := ds_name _ _ _ _ hx
+        rcases hr with hr | hr <;> subst hr
+        · simp only [el, paramNames_elem, rfcOrder]
+          rw [names_cons_of _ hx', names_cons_of (n := nc "source") _ rfl]
+          simp [names]
+        · simp only [el, paramNames_elem, rfcOrder]
+          rw [names_cons_of _ hx', names_cons_of (n := s "source") _ rfl]
+          simp [names]
+    · cases h
+  | subscribe f a b c =>
+    unfold Retrieve.build createSubscription at h
+    obtain ⟨_, _, h⟩ := bind_ok h
+    obtain ⟨fl, hfl, h⟩ := bind_ok h
+    obtain ⟨l1, h1, h⟩ := bind_ok h
+    obtain ⟨l2, h2, h⟩ := bind_ok h
+    obtain ⟨_, _, h⟩ := bind_ok h
+    obtain ⟨l3, h3, h⟩ := bind_ok h
+    injection h with h; subst h
+    simp only [paramNames_elem, names_append, rfcOrder]
+    have := List.Sublist.append (List.Sublist.append (List.Sublist.append (filterPart_names f fl hfl) (nsOpt_names "stream" a l1 h1))
+      (nsOpt_names "startTime" b l2 h2)) (nsOpt_names "stopTime" c l3 h3)
+    simpa [List.append_assoc] using this
 
 end NcVerif.RetrieveP
